@@ -205,6 +205,7 @@ struct Task {
         uint64_t hash = 0xabcdef;
         bool wrapped = false;
         int last_slot = -1;
+        int next_id = 1;
         IMB_JOB *slots[IMB_MAX_BURST_SIZE + 8];
 };
 
@@ -218,6 +219,7 @@ struct Ctx {
         bool after_mark = false;
         const JobSpec *cur_spec = nullptr; // for attribution of ref.* oracles
         const InFlight *cur_inf = nullptr;
+        struct Task *cur_task = nullptr;
 };
 
 Ctx *g_ctx = nullptr;
@@ -240,6 +242,8 @@ violate(Ctx &c, const std::string &oracle, const std::string &detail, const std:
         v.detail = detail;
         v.op_index = c.op_index;
         v.key = key;
+        if (!key.empty() && c.cur_task && c.cur_task->mgr.m)
+                v.key = std::string("variant=") + arch_type_name(c.cur_task->mgr.m) + ";" + key;
         if (c.res->viols.size() < 32)
                 c.res->viols.push_back(v);
 }
@@ -432,9 +436,9 @@ attribute_fault(Ctx &c, const std::vector<const MatJob *> &extra)
                 return b;
         }
         const JobSpec &s = best->spec;
-        snprintf(b, sizeof b, "%s %ld byte(s) %s object '%s' (len %u) of job %s", g_fault.write ? "write" : "read",
+        snprintf(b, sizeof b, "%s %ld byte(s) %s object '%s' (len %u) at rip %p of job %s", g_fault.write ? "write" : "read",
                  after ? best_d + 1 : best_d, after ? "past the end of" : "before the start of", obj_names[best_obj],
-                 best->obj[best_obj].len, spec_str(s).c_str());
+                 best->obj[best_obj].len, g_fault.rip, spec_str(s).c_str());
         c.cur_spec = &best->spec;
         // structured key for known findings
         std::string key = std::string("alg=") + cipher_name(s.cipher) + "-" + std::to_string(s.key_len * 8) + "/" +
@@ -477,7 +481,7 @@ const char *
 job_field_at(size_t off)
 {
 #define F(f)                                                                                                           \
-        if (off >= offsetof(IMB_JOB, f) && off < offsetof(IMB_JOB, f) + sizeof(((IMB_JOB *) 0)->f))                     \
+        if (off + 1 > offsetof(IMB_JOB, f) && off < offsetof(IMB_JOB, f) + sizeof(((IMB_JOB *) 0)->f))                   \
                 return #f;
         F(enc_keys) F(dec_keys) F(key_len_in_bytes) F(src) F(dst) F(cipher_start_src_offset_in_bytes)
         F(msg_len_to_cipher_in_bytes) F(hash_start_src_offset_in_bytes) F(msg_len_to_hash_in_bytes) F(iv)
@@ -688,7 +692,7 @@ InFlight *
 prepare_job(Ctx &c, Task &t, const JobSpec &spec, IMB_JOB *slot, bool burst)
 {
         InFlight *f = new InFlight;
-        f->id = c.next_id++;
+        f->id = t.next_id++;
         f->slot = slot;
         f->burst = burst;
         f->op_index = c.op_index;
@@ -1038,8 +1042,18 @@ op_reinit(Ctx &c, Task &t, int cfg)
         mgr_init(t.mgr, cfg);
         t.api = 0;
         t.last_slot = -1;
-        evlog(c, t, 0x5249, (uint64_t) cfg, dropped, "re-init as %s with %zu jobs in flight -> %s errno %d", cfg_name(cfg), dropped,
-              arch_type_name(t.mgr.m), t.mgr.m->imb_errno);
+        t.wrapped = false;
+        t.next_id = 1;
+        // history after the last re-initialisation is hashed separately (C15: must equal a fresh manager's)
+        c.after_mark = true;
+        c.res->suffix_hash = 0;
+        {
+                bool am = c.after_mark;
+                c.after_mark = false; // the re-init event itself is not part of the suffix
+                evlog(c, t, 0x5249, (uint64_t) cfg, dropped, "re-init as %s with %zu jobs in flight -> %s errno %d", cfg_name(cfg),
+                      dropped, arch_type_name(t.mgr.m), t.mgr.m->imb_errno);
+                c.after_mark = am;
+        }
         // immediate post-conditions (C15)
         if (t.mgr.m->imb_errno != 0)
                 violate(c, "reinit.errno", "re-initialisation left a non-zero error code");
@@ -1223,6 +1237,7 @@ run_plan(const Plan &p, const RunOpts &o)
                         if (o.only_task >= 0 && op.task != o.only_task)
                                 continue;
                         Task &t = c.tasks[op.task];
+                        c.cur_task = &t;
                         ctr(c, CT_OPS);
                         record_state(c, t, op.kind);
                         switch (op.kind) {
@@ -1245,10 +1260,11 @@ run_plan(const Plan &p, const RunOpts &o)
                 }
                 // end of run: drain every task (bounded liveness, exactly the remaining FIFO)
                 c.op_index = (int) p.ops.size();
-                if (res.viols.empty())
+                if (res.viols.size() < 8)
                         for (size_t i = 0; i < c.tasks.size(); i++) {
                                 if (o.only_task >= 0 && (int) i != o.only_task)
                                         continue;
+                                c.cur_task = &c.tasks[i];
                                 op_flush_all(c, c.tasks[i]);
                                 op_queue_size(c, c.tasks[i]);
                         }
